@@ -365,6 +365,7 @@ int main(int argc, char **argv)
   vj::open(argv[2]);
   bool const thorough = std::string(argv[4]) == "thorough";
   if (argc > 5) c05::only_op() = argv[5];
+  c05::thorough() = thorough;
   drive_algorithm(thorough);
   c05::drive_values();
   c05::drive_product();
